@@ -37,24 +37,26 @@ type Set struct {
 }
 
 type Tok struct {
-	K      string `json:"k"`
-	Trail  bool   `json:"trail"`
-	Local  int    `json:"local"`
-	Mpegts int    `json:"mpegts"`
-	A      int    `json:"a"`
-	ID     int    `json:"id"`
-	Lines  int    `json:"lines"`
-	Width  int    `json:"width"`
-	Scroll int    `json:"scroll"`
-	V      int    `json:"v"`
-	S      int    `json:"s"`
-	E      int    `json:"e"`
-	Hrs    bool   `json:"hrs"`
-	Tab    bool   `json:"tab"`
-	Set    Set    `json:"set"`
-	Region int    `json:"region"`
-	Voice  int    `json:"voice"`
-	Its    []Inl  `json:"its"`
+	K        string `json:"k"`
+	Trail    bool   `json:"trail"`
+	Local    int    `json:"local"`
+	Mpegts   int    `json:"mpegts"`
+	A        int    `json:"a"`
+	ID       int    `json:"id"`
+	Lines    int    `json:"lines"`
+	Width    int    `json:"width"`
+	Scroll   int    `json:"scroll"`
+	Anchor   int    `json:"anchor"`   // regionanchor
+	Viewport int    `json:"viewport"` // viewportanchor
+	V        int    `json:"v"`
+	S        int    `json:"s"`
+	E        int    `json:"e"`
+	Hrs      bool   `json:"hrs"`
+	Tab      bool   `json:"tab"`
+	Set      Set    `json:"set"`
+	Region   int    `json:"region"`
+	Voice    int    `json:"voice"`
+	Its      []Inl  `json:"its"`
 }
 
 type Doc struct {
@@ -69,10 +71,12 @@ type Tsmap struct {
 }
 
 type Region struct {
-	ID     int `json:"id"`
-	Lines  int `json:"lines"`
-	Width  int `json:"width"`
-	Scroll int `json:"scroll"`
+	ID       int `json:"id"`
+	Lines    int `json:"lines"`
+	Width    int `json:"width"`
+	Scroll   int `json:"scroll"`
+	Anchor   int `json:"anchor"`
+	Viewport int `json:"viewport"`
 }
 
 type Run struct {
@@ -168,8 +172,8 @@ func (d *Doc) Norm() {
 
 // Pool maps atoms to concrete strings.
 type Pool struct {
-	Text, Note, Css, Cls, Ann, Voice, RegionID, Width, Scroll map[int]string
-	Align, Line, Position, Size, Vertical                     map[int]string
+	Text, Note, Css, Cls, Ann, Voice, RegionID, Width, Scroll, Anchor, Viewport map[int]string
+	Align, Line, Position, Size, Vertical                                       map[int]string
 }
 
 var base = Pool{
@@ -180,6 +184,8 @@ var base = Pool{
 	RegionID: map[int]string{1: "fred", 2: "bill"},
 	Width:    map[int]string{1: "40%"},
 	Scroll:   map[int]string{1: "up"},
+	Anchor:   map[int]string{1: "0%,100%", 2: "50%,50%"},
+	Viewport: map[int]string{1: "10%,90%", 2: "0%,0%"},
 	Align:    map[int]string{1: "start", 2: "end"},
 	Line:     map[int]string{1: "0", 2: "85%"},
 	Position: map[int]string{1: "10%", 2: "50%,line-left"},
@@ -301,8 +307,14 @@ func Concretise(d Doc, p Pool) []byte {
 			if t.Width != 0 {
 				b.WriteString(" width=" + p.Width[t.Width])
 			}
+			if t.Anchor != 0 {
+				b.WriteString(" regionanchor=" + p.Anchor[t.Anchor])
+			}
 			if t.Scroll != 0 {
 				b.WriteString(" scroll=" + p.Scroll[t.Scroll])
+			}
+			if t.Viewport != 0 {
+				b.WriteString(" viewportanchor=" + p.Viewport[t.Viewport])
 			}
 		case "id":
 			b.WriteString(strconv.Itoa(t.V))
@@ -484,6 +496,10 @@ func Lex(b []byte, p Pool) Doc {
 					t.Width = rev(p.Width, p2[1])
 				case "scroll":
 					t.Scroll = rev(p.Scroll, p2[1])
+				case "regionanchor":
+					t.Anchor = rev(p.Anchor, p2[1])
+				case "viewportanchor":
+					t.Viewport = rev(p.Viewport, p2[1])
 				default:
 					t.Scroll = -2 // a region field outside the model
 				}
@@ -560,7 +576,8 @@ func Build(g Truth, p Pool) *astisub.Subtitles {
 	for _, r := range g.Regions {
 		id := p.RegionID[r.ID]
 		s.Regions[id] = &astisub.Region{ID: id, InlineStyle: &astisub.StyleAttributes{
-			WebVTTLines: r.Lines, WebVTTWidth: strOr(p.Width, r.Width), WebVTTScroll: strOr(p.Scroll, r.Scroll)}}
+			WebVTTLines: r.Lines, WebVTTWidth: strOr(p.Width, r.Width), WebVTTScroll: strOr(p.Scroll, r.Scroll),
+			WebVTTRegionAnchor: strOr(p.Anchor, r.Anchor), WebVTTViewportAnchor: strOr(p.Viewport, r.Viewport)}}
 	}
 	for _, c := range g.Cues {
 		it := &astisub.Item{StartAt: time.Duration(c.S) * time.Millisecond, EndAt: time.Duration(c.E) * time.Millisecond, Index: c.ID}
@@ -644,9 +661,8 @@ func Project(s *astisub.Subtitles, p Pool) Truth {
 			pr.Lines = r.InlineStyle.WebVTTLines
 			pr.Width = zrev(p.Width, r.InlineStyle.WebVTTWidth)
 			pr.Scroll = zrev(p.Scroll, r.InlineStyle.WebVTTScroll)
-			if r.InlineStyle.WebVTTRegionAnchor != "" || r.InlineStyle.WebVTTViewportAnchor != "" {
-				pr.Scroll = -2
-			}
+			pr.Anchor = zrev(p.Anchor, r.InlineStyle.WebVTTRegionAnchor)
+			pr.Viewport = zrev(p.Viewport, r.InlineStyle.WebVTTViewportAnchor)
 		}
 		g.Regions = append(g.Regions, pr)
 	}
